@@ -2,17 +2,20 @@
 """C15 correspondence run: real rv MvGaussian / MvGaussianSuffStat / InvWishart / NormalInvWishart (harness ops of
 harness/src/manual_c15.rs) vs the hand model Hand.Mvg on Float (driver entries of lean/RvModel/Hand/DispatchC15.lean)
 on random cases, plus direct checks of the implementation's answers against the statement of the property
-(see props/C15_notes.md).  Stand-alone helper (not imported by ./check):
-    python3 props/cases_c15.py [<rvharness> <rvdrv> [seed] [n]]      # about 30 lines per unit of n
+(see props/C15_notes.md).  Two entry points:
+  * library:      `from props import cases_c15; r = cases_c15.run(tier, seed)`  ->  dict with the keys
+                  cases (int), mismatches (list of (line, impl, model)), findings (dict name -> list of case strings),
+                  samples (a few evaluated lines), and the extras worst / errors / accuracy / counts (see `run`);
+  * stand-alone:  python3 props/cases_c15.py [<rvharness> <rvdrv> [seed] [n]]      # about 33 lines per unit of n
 Pure Python (no numpy)."""
 import math, os, random, struct, subprocess, sys, collections
 
 _ROOT = os.path.dirname(os.path.dirname(os.path.abspath(__file__)))
-H = sys.argv[1] if len(sys.argv) > 2 else os.path.join(_ROOT, 'harness', 'target', 'release', 'rvharness')
-D = sys.argv[2] if len(sys.argv) > 2 else os.path.join(_ROOT, 'lean', '.lake', 'build', 'bin', 'rvdrv')
-SEED = int(sys.argv[3]) if len(sys.argv) > 3 else 15
-N = int(sys.argv[4]) if len(sys.argv) > 4 else 100
-rng = random.Random(SEED)
+H = os.path.join(_ROOT, 'harness', 'target', 'release', 'rvharness')      # overridden by run(harness=…) / the CLI
+D = os.path.join(_ROOT, 'lean', '.lake', 'build', 'bin', 'rvdrv')
+N = 100
+UNITS = {'quick': 12, 'thorough': 100}      # units per tier (≈ 33 case lines per unit, + draws + probes)
+rng = random.Random(15)                     # re-seeded by run()
 NAN, INF = float('nan'), float('inf')
 DMAX, NMAX = 8, 60
 RTOL = 1e-9           # relative tolerance, multiplied by the condition number of the matrices of the case
@@ -155,7 +158,7 @@ def iw_ln_f_ref(scale, df, x):
 
 
 # ------------------------------------------------------------------------------------------- running both programs
-def run(prog, lines):
+def pipe(prog, lines):
     p = subprocess.run([prog], input='\n'.join(lines) + '\n', capture_output=True, text=True, timeout=3000)
     out = p.stdout.split('\n')
     if out and out[-1] == '':
@@ -370,12 +373,26 @@ def bad_niw(d, mu, scale):
     return niw_tokens(mu, k, df, scale)
 
 
-def main():
+def run(tier='quick', seed=15, n=None, harness=None, driver=None):
+    """one correspondence run; returns
+         {'cases': int, 'mismatches': [(line, impl, model)], 'findings': {name: [case strings]}, 'samples': [str],
+          'worst': {op: worst |impl-model|/(magnitude·cond)}, 'errors': {"<op> <E:…|PANIC>": count},
+          'accuracy': {(d, log10 cond): worst relative error of the implementation's InvWishart::ln_f vs exact},
+          'counts': {'corr': …, 'draws': …, 'probes': …, 'statistical': …}}
+       `tier` selects the number of units (UNITS) unless `n` is given; `harness` / `driver` default to the /verif binaries."""
+    global rng, cases, N, H, D
+    rng = random.Random(seed)
+    cases = []
+    N = int(n) if n is not None else UNITS.get(tier, UNITS['quick'])
+    if harness:
+        H = harness
+    if driver:
+        D = driver
     for u in range(N):
         gen_unit(u)
     lines = [c[0] for c in cases]
-    oi = run(H, lines)
-    om = run(D, lines)
+    oi = pipe(H, lines)
+    om = pipe(D, lines)
     mism, worst = [], collections.defaultdict(float)
     errs = collections.Counter()
     for (line, cond, mag, tag), a, b in zip(cases, oi, om):
@@ -395,13 +412,13 @@ def main():
         mu = gvec(d, 5.0)
         dl.append('mvg.draw_with_z - %s %s %d' % (V(mu), M(cov), rng.randrange(1 << 62)))
         dinfo.append((mu, cov, cond, d))
-    di = run(H, dl)
+    di = pipe(H, dl)
     ml = []
     for (mu, cov, cond, d), a in zip(dinfo, di):
         fl = floats(a)
         z, x = fl[:d], fl[d:]
         ml.append('mvg.draw_z - %s %s %s' % (V(mu), M(cov), V(z)))
-    dm_ = run(D, ml)
+    dm_ = pipe(D, ml)
     ndraw = 0
     for (mu, cov, cond, d), a, b, l in zip(dinfo, di, dm_, ml):
         ndraw += 1
@@ -434,7 +451,7 @@ def main():
         ls += ['niw.posterior - %s D %s' % (niw, M(data[:h], h, d))]
         prop_meta.append((len(prop_lines), len(ls), d, n, h, cond, cs, mu, cov, data, niw))
         prop_lines += ls
-    po = run(H, prop_lines)
+    po = pipe(H, prop_lines)
     second = []
     for (o, k, d, n, h, cond, cs, mu, cov, data, niw) in prop_meta:
         a = po[o:o + k]
@@ -450,7 +467,7 @@ def main():
         half = a[6 + n]
         second.append(('niw.ln_f - %s %s %s' % (post, V(mu), M(cov)), 'bayes', (floats(a[5 + n])[0], s, lm, cond, cs, prop_lines[o + 5 + n])))
         second.append(('niw.posterior - %s D %s' % (half, M(data[h:], n - h, d)), 'seq', (post, n, data, cs)))
-    so = run(H, [s[0] for s in second])
+    so = pipe(H, [s[0] for s in second])
     for (line, kind, meta), a in zip(second, so):
         if kind == 'bayes':
             prior, s, lm, cond, cs, pl = meta
@@ -478,7 +495,7 @@ def main():
                 df = d + rng.randrange(0, 5)
                 al.append('iw.ln_f - %s %d %s' % (M(scale), df, M(xm)))
                 am.append((d, lc, scale, df, xm, cx))
-    ao = run(H, al)
+    ao = pipe(H, al)
     acc = collections.defaultdict(float)
     for (d, lc, scale, df, xm, cx), a, l in zip(am, ao, al):
         ref = iw_ln_f_ref(scale, df, xm)
@@ -486,10 +503,8 @@ def main():
         acc[(d, lc)] = max(acc[(d, lc)], err)
         if err > 1e-13 * cx:          # more than ~3 digits worse than the conditioning explains
             findings['iw_ln_f_inaccurate_d%d' % d].append('%s -> impl %r, exact %r (cond %.3g)' % (l, floats(a)[0], ref, cx))
-    print('accuracy of the implementation, InvWishart::ln_f vs exact rational linear algebra: worst relative error')
-    for d in range(1, DMAX + 1):
-        print('      d=%d  ' % d + '  '.join('cond 1e%d: %.2g' % (lc, acc[(d, lc)]) for lc in (2, 4, 6, 8)))
-    # empty data
+    # empty data; `ln_f_stat_empty_not_zero` and `niw_accepts_nan_k` were defects of the pinned tree, REPAIRED in /repo by
+    # ed8aba1 / 395fe75: the detection stays, a recurrence is a regression (not a known finding any more)
     for (line, cond, mag, tag), a in zip(cases, oi):
         if tag == 'lnfstat n=0' and not a.startswith('E') and floats(a) and floats(a)[0] != 0.0:
             findings['ln_f_stat_empty_not_zero'].append('%s -> %s' % (line[:200], a))
@@ -507,7 +522,7 @@ def main():
         mu = gvec(d, 3.0)
         sl.append('mvg.draw_moments - %s %s %d %d' % (V(mu), M(cov), rng.randrange(1 << 62), 20000))
         sm.append((mu, cov, d))
-    st = run(H, sl)
+    st = pipe(H, sl)
     for (mu, cov, d), a, l in zip(sm, st, sl):
         fl = floats(a)
         m, c = fl[:d], fl[d:]
@@ -516,26 +531,46 @@ def main():
         if bad:
             findings['draw_moments'].append(l[:200] + ' -> ' + a[:200])
     total = len(cases) + ndraw
-    print('cases: %d  (harness+model %d, draws replayed %d; property probes %d, statistical %d)' % (total, len(cases), ndraw, len(prop_lines) + len(second), len(sl)))
-    print('mismatches beyond tolerance: %d' % len(mism))
+    return {'cases': total,
+            'mismatches': [(line, a, b) for line, a, b, cond in mism],
+            'mismatch_conds': [cond for line, a, b, cond in mism],
+            'findings': {k: list(v) for k, v in findings.items()},
+            'samples': ['%s -> %s' % (c[0][:160], a[:60]) for c, a in list(zip(cases, oi))[:4]],
+            'worst': dict(worst), 'errors': dict(errs), 'accuracy': dict(acc),
+            'counts': {'corr': len(cases), 'draws': ndraw, 'probes': len(prop_lines) + len(second), 'statistical': len(sl)}}
+
+
+def main():
+    harness = sys.argv[1] if len(sys.argv) > 2 else None
+    driver = sys.argv[2] if len(sys.argv) > 2 else None
+    seed = int(sys.argv[3]) if len(sys.argv) > 3 else 15
+    n = int(sys.argv[4]) if len(sys.argv) > 4 else 100
+    r = run('thorough', seed, n=n, harness=harness, driver=driver)
+    c = r['counts']
+    print('accuracy of the implementation, InvWishart::ln_f vs exact rational linear algebra: worst relative error')
+    for d in range(1, DMAX + 1):
+        print('      d=%d  ' % d + '  '.join('cond 1e%d: %.2g' % (lc, r['accuracy'].get((d, lc), 0.0)) for lc in (2, 4, 6, 8)))
+    print('cases: %d  (harness+model %d, draws replayed %d; property probes %d, statistical %d)'
+          % (r['cases'], c['corr'], c['draws'], c['probes'], c['statistical']))
+    print('mismatches beyond tolerance: %d' % len(r['mismatches']))
     if os.environ.get('C15_DUMP'):
         with open(os.environ['C15_DUMP'], 'w') as f:
-            for line, a, b, cond in mism:
+            for line, a, b in r['mismatches']:
                 f.write('%s\n%s\n%s\n' % (line, a, b))
-    for line, a, b, cond in mism[:12]:
+    for (line, a, b), cond in list(zip(r['mismatches'], r['mismatch_conds']))[:12]:
         print('  MISMATCH cond=%.3g' % cond)
         print('      ' + line[:300])
         print('      impl:  ' + a[:300])
         print('      model: ' + b[:300])
     print('worst |impl-model| / (magnitude·cond) per op:')
-    for op in sorted(worst):
-        print('      %-26s %.3g' % (op, worst[op]))
+    for op in sorted(r['worst']):
+        print('      %-26s %.3g' % (op, r['worst'][op]))
     print('error / panic answers (identical on both sides):')
-    for k in sorted(errs):
-        print('      %-60s %d' % (k, errs[k]))
-    for k in sorted(findings):
-        print('finding %s %d' % (k, len(findings[k])))
-        for l in findings[k][:3]:
+    for k in sorted(r['errors']):
+        print('      %-60s %d' % (k, r['errors'][k]))
+    for k in sorted(r['findings']):
+        print('finding %s %d' % (k, len(r['findings'][k])))
+        for l in r['findings'][k][:3]:
             print('    ' + l[:4000])
 
 
